@@ -323,6 +323,39 @@ Definition c02_trace_judge (c : wg_case) : nat :=
     else 2%nat
   else 0%nat.
 
+(* ---------------------------------------------------------------- the deadline probe
+   harness/cmd/c01 -mode deadline: WaitTimeout(d) / WaitCTX(context.WithTimeout(d)) on a goroutine
+   of their own on the real code while a driver works the group.  Times in milliseconds.
+     scenario 0  idle group: nil, at once (within 0.7 d)
+     scenario 1  count 1, never released: the deadline's error, not before 0.8 d, not after 2 d
+     scenario 2  release + re-arm cycles (Dec to zero; the woken waiter is held at its next yield
+                 point until the Inc that re-arms the group is done): an answer within 2 d,
+                 whatever it is - the deadline is an absolute time fixed at the call
+                 (WGTimed: the k of TW0 k only counts down; WGTimed.twr_unbounded is the model of
+                 an implementation that restarts it)
+   result: 0 nil, 1 the deadline's error, 2 no answer within 5 d.  The factor 2 is slack for a
+   loaded machine; the harness re-measures before it writes a violating case.                *)
+Record dl_case := DlCase {
+  dl_api : N;        (* 0 WaitTimeout, 1 WaitCTX *)
+  dl_scen : N;
+  dl_d : N;
+  dl_elapsed : N;
+  dl_res : N;
+  dl_cycles : N;     (* release + re-arm cycles made *)
+  dl_held : N        (* of which the waiter was held between Dec and Inc *)
+}.
+
+Definition dl_ok (c : dl_case) : bool :=
+  match dl_scen c with
+  | 0%N => N.eqb (dl_res c) 0 && N.leb (10 * dl_elapsed c) (7 * dl_d c)
+  | 1%N => N.eqb (dl_res c) 1 && N.leb (8 * dl_d c) (10 * dl_elapsed c)
+           && N.leb (dl_elapsed c) (2 * dl_d c)
+  | _ => negb (N.eqb (dl_res c) 2) && N.leb (dl_elapsed c) (2 * dl_d c)
+  end%N.
+
+Definition dl_judge (c : dl_case) : nat := if dl_ok c then 0%nat else 1%nat.
+Definition dl_nontrivial (c : dl_case) : bool := N.ltb 0 (dl_held c).
+
 (* model-only correspondence (spec ignored): used to tell apart code 2 from code 1 causes *)
 Definition corr_judge (c : wg_case) : nat := if model_eq c then 0%nat else 2%nat.
 
